@@ -27,7 +27,10 @@ KNOWN_PATH = os.path.join(os.path.dirname(os.path.abspath(__file__)), "known_hel
 def known_helpers():
     try:
         with open(KNOWN_PATH) as fh:
-            return set(json.load(fh)["private_methods"])
+            d_ = json.load(fh)
+            # every method of the tree the rules were written against is an anchor a rule may name; anything else is a helper that a
+            # later change introduced (private or not) and is looked through
+            return set(d_["private_methods"]) | set(d_.get("all_methods", []))
     except OSError:
         return None
 
@@ -57,8 +60,12 @@ def _is_simple(e):
         return _is_simple(e.value)
     if isinstance(e, ast.Subscript):
         return _is_simple(e.value) and _is_simple(e.slice)
-    if isinstance(e, ast.UnaryOp) and isinstance(e.operand, ast.Constant):
-        return True
+    if isinstance(e, ast.UnaryOp):
+        return _is_simple(e.operand)
+    if isinstance(e, ast.BinOp):
+        return _is_simple(e.left) and _is_simple(e.right)        # pure arithmetic of simple operands may be evaluated more than once
+    if isinstance(e, ast.Tuple):
+        return all(_is_simple(x) for x in e.elts)
     return False
 
 
@@ -178,6 +185,24 @@ def _as_expression(fn):
     """A helper whose body only decides a value:  [if c: return v]* ; return w   ->   one expression (None otherwise).
     `if c: return True` ... `return False` becomes `c or ...`; other constants / expressions become conditional expressions."""
     body = [s for s in fn.body if not (isinstance(s, ast.Expr) and isinstance(s.value, ast.Constant))]
+
+    def _tail_to_return(stmts):
+        """`...; if c: return a else: return b` (both branches end in a return) -> `...; return a if c else b`"""
+        if stmts and isinstance(stmts[-1], ast.If) and stmts[-1].orelse:
+            last = stmts[-1]
+            tb, fb = _tail_to_return(last.body), _tail_to_return(last.orelse)
+            if tb is not None and fb is not None and len(tb) == 1 and len(fb) == 1:
+                return stmts[:-1] + [ast.copy_location(ast.Return(value=ast.IfExp(test=last.test, body=tb[0].value, orelse=fb[0].value)), last)]
+            return None
+        if stmts and isinstance(stmts[-1], ast.Return) and stmts[-1].value is not None:
+            return stmts
+        return None
+    if body and isinstance(body[-1], ast.If):
+        nb = _tail_to_return(body)
+        if nb is not None:
+            body = nb
+            for x_ in body:
+                ast.fix_missing_locations(x_)
     if not body or not isinstance(body[-1], ast.Return) or body[-1].value is None:
         return None
     for x in ast.walk(fn):
@@ -359,7 +384,7 @@ def inline_module_value_functions(prog):
     for mi in prog.modules.values():
         cands = {}
         for st in mi.tree.body:
-            if isinstance(st, ast.FunctionDef) and st.name.startswith("_") and not st.name.startswith("__") and (mi.name + "." + st.name) not in known \
+            if isinstance(st, ast.FunctionDef) and not st.name.startswith("__") and (mi.name + "." + st.name) not in known \
                     and not st.decorator_list:
                 e = _as_expression(st)
                 if e is None or any(isinstance(x, ast.Name) and x.id == st.name for x in ast.walk(st)):
@@ -414,7 +439,7 @@ def inline_unknown_helpers(prog, known):
                 for name, h in base_c.methods.items():
                     inherited.setdefault(name, h)
             for name, h in inherited.items():
-                if not name.startswith("_") or (name.startswith("__") and name.endswith("__")):
+                if name.startswith("__") and name.endswith("__"):
                     continue
                 if name.startswith("__") and h.cls is not ci:
                     continue                              # name-mangled: only visible in its own class
@@ -433,7 +458,7 @@ def inline_unknown_helpers(prog, known):
             # helpers that only decide a value are substituted as expressions wherever they are called
             ecands = {}
             for name, h in inherited.items():
-                if not name.startswith("_") or (name.startswith("__") and name.endswith("__")) or h.qual in known or h.is_classmethod:
+                if (name.startswith("__") and name.endswith("__")) or h.qual in known or h.is_classmethod:
                     continue
                 if name.startswith("__") and h.cls is not ci:
                     continue
